@@ -274,7 +274,7 @@ func (e *sepEngine) analyse(fn *ssa.Function, st int, args sepCtx) *sepSummary {
 		e.store(key, sum)
 		return sum
 	}
-	headers, _ := loopsOf(fn)
+	headers, bodiesOf := loopsOf(fn)
 	isHeader := map[*ssa.BasicBlock]bool{}
 	for _, h := range headers {
 		isHeader[h] = true
@@ -312,12 +312,16 @@ func (e *sepEngine) analyse(fn *ssa.Function, st int, args sepCtx) *sepSummary {
 				}
 				cond, neg = u.X, !neg
 			}
-			// a range loop header: states marked "last iteration" can only leave
-			if isHeader[b] && isRangeLoop(b) {
+			// the header of a range loop or of a counting loop `i < len(X)`: states marked "last iteration" can only leave
+			if isHeader[b] && (isRangeLoop(b) || countingHeader(b)) {
 				marked := cur >> sepLast & 0xFF
 				plain := cur & 0xFF
-				push(b.Succs[0], plain)
-				push(b.Succs[1], plain|marked)
+				bodyIdx, exitIdx := 0, 1
+				if bodiesOf[b] != nil && !bodiesOf[b][b.Succs[0]] {
+					bodyIdx, exitIdx = 1, 0
+				}
+				push(b.Succs[bodyIdx], plain)
+				push(b.Succs[exitIdx], plain|marked)
 				continue
 			}
 			if isHeader[b] {
@@ -375,7 +379,7 @@ func (e *sepEngine) analyse(fn *ssa.Function, st int, args sepCtx) *sepSummary {
 			push(b.Succs[1], fset)
 		default:
 			for _, s := range b.Succs {
-				if isHeader[s] && !isRangeLoop(s) {
+				if isHeader[s] && !isRangeLoop(s) && !countingHeader(s) {
 					push(s, clearLast(cur))
 				} else {
 					push(s, cur)
@@ -395,6 +399,7 @@ func lastIterationTest(cond ssa.Value) (hdr *ssa.BasicBlock, isNE bool, ok bool)
 	}
 	// the index of a range loop: go/ssa keeps a phi that starts at -1 and hands phi+1 to the body
 	rangeIdx := func(v ssa.Value) *ssa.Phi {
+		orig := v
 		v = stripChange(v)
 		if add, ok := v.(*ssa.BinOp); ok && add.Op == token.ADD {
 			if k, okK := constNum(add.Y); okK && k == 1 {
@@ -402,6 +407,10 @@ func lastIterationTest(cond ssa.Value) (hdr *ssa.BasicBlock, isNE bool, ok bool)
 			}
 		}
 		if ph, ok := v.(*ssa.Phi); ok && strings.Contains(ph.Comment, "rangeindex") {
+			return ph
+		}
+		// the induction variable of `for i := 0; i < len(X); i++`
+		if ph, ok := stripChange(orig).(*ssa.Phi); ok && countingHeader(ph.Block()) && countingVar(ph.Block()) == ph {
 			return ph
 		}
 		return nil
@@ -431,6 +440,11 @@ func lastIterationTest(cond ssa.Value) (hdr *ssa.BasicBlock, isNE bool, ok bool)
 	// the loop's own bound is len of the same value
 	x := stripChange(lc.Call.Args[0])
 	same := false
+	if countingHeader(ph.Block()) {
+		if bx := countingBound(ph.Block()); bx != nil && (stripChange(bx) == x || accessPath(bx) == accessPath(x)) {
+			same = true
+		}
+	}
 	for _, in := range ph.Block().Instrs {
 		if c2, ok := in.(*ssa.Call); ok {
 			if b, isBi := c2.Call.Value.(*ssa.Builtin); isBi && b.Name() == "len" && stripChange(c2.Call.Args[0]) == x {
@@ -1012,4 +1026,54 @@ func partsTest(p *Program, cond ssa.Value, node ssa.Value, depth int) string {
 		}
 	}
 	return ""
+}
+
+// countingHeader: b is the header of `for i := k; i < len(X); i++` — its If compares a phi of b that steps by one with
+// len of something.
+func countingHeader(b *ssa.BasicBlock) bool {
+	return countingVar(b) != nil
+}
+
+func countingVar(b *ssa.BasicBlock) *ssa.Phi {
+	if len(b.Instrs) == 0 {
+		return nil
+	}
+	ifi, ok := b.Instrs[len(b.Instrs)-1].(*ssa.If)
+	if !ok {
+		return nil
+	}
+	bo, ok := ifi.Cond.(*ssa.BinOp)
+	if !ok || bo.Op != token.LSS {
+		return nil
+	}
+	ph, ok := stripChange(bo.X).(*ssa.Phi)
+	if !ok || ph.Block() != b {
+		return nil
+	}
+	if lc, ok := stripChange(bo.Y).(*ssa.Call); ok {
+		if bi, isB := lc.Call.Value.(*ssa.Builtin); !isB || bi.Name() != "len" {
+			return nil
+		}
+	} else {
+		return nil
+	}
+	// steps by one on the back edges
+	okStep := false
+	for _, e := range ph.Edges {
+		if add, ok := stripChange(e).(*ssa.BinOp); ok && add.Op == token.ADD && stripChange(add.X) == ssa.Value(ph) {
+			if k, okK := constNum(add.Y); okK && k == 1 {
+				okStep = true
+			}
+		}
+	}
+	if !okStep {
+		return nil
+	}
+	return ph
+}
+
+func countingBound(b *ssa.BasicBlock) ssa.Value {
+	ifi := b.Instrs[len(b.Instrs)-1].(*ssa.If)
+	bo := ifi.Cond.(*ssa.BinOp)
+	return stripChange(bo.Y).(*ssa.Call).Call.Args[0]
 }
